@@ -305,9 +305,9 @@ def _sql(selectable) -> str:
 # ---- factor logic: boolean trees over leaves of one table, the other table and both, on a dense grid ---------------------
 _GRID = {
     'A': [{'id': i + 1, 'x': x, 'f': f, 's': v, 'b': b, 'd': '2020-01-01', 't': '2020-01-01T00:00:00'}
-          for i, (x, f, v, b) in enumerate([(0, -1.0, 'a', True), (1, 0.5, 'b', False), (2, 1.5, 'x', True), (3, 0.0, 'a', False)])],
+          for i, (x, f, v, b) in enumerate([(0, -1.0, 'a', True), (1, 0.5, 'b', False), (2, 1.5, 'x', True), (3, 0.0, 'a', False), (-1, 2.5, 'b', True), (-2, -0.5, 'x', False)])],
     'B': [{'id': i + 1, 'a': a, 'y': y, 's': v}
-          for i, (a, y, v) in enumerate([(1, 0.5, 'a'), (1, 2.0, 'b'), (2, -1.0, 'x'), (3, 1.0, 'x'), (4, 3.0, 'a'), (2, 0.0, 'b'), (3, -2.0, 'a'), (4, 0.5, 'x')])],
+          for i, (a, y, v) in enumerate([(1, 0.5, 'a'), (1, 2.0, 'b'), (2, -1.0, 'x'), (3, 1.0, 'x'), (4, 3.0, 'a'), (2, 0.0, 'b'), (3, -2.0, 'a'), (4, 0.5, 'x'), (5, 1.5, 'b'), (6, -1.5, 'a')])],
     'C': [{'id': 1, 'b': 1, 'z': 0}, {'id': 2, 'b': 2, 'z': 3}, {'id': 3, 'b': 5, 'z': 1}, {'id': 4, 'b': 8, 'z': 2}],
     'D': [{'id': 1, 'value': 2}],
 }
@@ -316,7 +316,9 @@ _GRID = {
 def _leaves():
     col, lit, cmp = A.col, A.lit, A.cmp
     return {
-        'A': [cmp('gt', col('A', 'x'), lit(1)), cmp('lt', col('A', 'x'), lit(1)), cmp('gt', col('A', 'f'), lit(0.0)), cmp('eq', col('A', 's'), lit('a'))],
+        # -1 / -2 hash alike in CPython: anything deciding "same predicate" through hashes confuses the last two
+        'A': [cmp('gt', col('A', 'x'), lit(1)), cmp('lt', col('A', 'x'), lit(1)), cmp('gt', col('A', 'f'), lit(0.0)), cmp('eq', col('A', 's'), lit('a')),
+              cmp('eq', col('A', 'x'), lit(-1)), cmp('eq', col('A', 'x'), lit(-2))],
         'B': [cmp('ge', col('B', 'y'), lit(1.0)), cmp('lt', col('B', 'a'), lit(3)), cmp('ne', col('B', 's'), lit('a')), cmp('lt', col('B', 'y'), lit(0.0))],
         'AB': [cmp('gt', col('A', 'x'), col('B', 'a')), cmp('eq', col('A', 's'), col('B', 's'))],
         'C': [cmp('gt', col('C', 'z'), lit(0)), cmp('lt', col('C', 'b'), lit(4))],
@@ -344,7 +346,12 @@ def _skeleton(draw, leaves):
     def two(op, left, right):
         return {'f': op, 'l': left, 'r': right} if draw(st.booleans()) else {'f': op, 'l': right, 'r': left}
 
-    kind = draw(st.integers(0, 8))
+    kind = draw(st.integers(0, 11))
+    if kind >= 9:  # two alternatives for the same table (alone, or next to a restriction of the other table)
+        both = two('or', px(), px())
+        if x == 'A' and draw(st.booleans()):  # the alternatives differ only in literals that hash alike
+            both = two('or', leaves['A'][-2], leaves['A'][-1])
+        return both if kind == 9 else two('and', both, py()) if kind == 10 else two('or', both, two('and', px(), py()))
     if kind == 0:
         return two('or', two('and', px(), py()), px())
     if kind == 1:
